@@ -71,5 +71,5 @@ Qed.
 
 (* hence, for the Gregorian calendar in UTC, for every whole second *)
 Lemma time_date_roundtrip_gregorian_lemma : forall t,
-  os_time unix_of_civil (os_date_t civil_of_unix t) = t.
+  os_time unix_of_civil (os_date_t civil_of_unix t) = Some t.
 Proof. intros t. apply time_date_roundtrip_lemma. exact civil_inverse_lemma. Qed.
